@@ -196,7 +196,7 @@ REGISTERED_OBJECTS = {
     "bytearray": [{"$bytearray": ""}, {"$bytearray": "00ff"}, {"$bytearray": "6f6e"}],
     "uuid": [{"$uuid": "12345678-1234-5678-1234-567812345678"}, {"$uuid": "00000000-0000-0000-0000-000000000000"}],
     "complex": [{"$complex": [1.0, 2.0]}, {"$complex": [0.0, 1.0]}, {"$complex": [-0.5, -1.5]}, {"$complex": [0.0, 1e22]}, {"$complex": [1e-07, 0.0]}],
-    "path": [{"$path": "a/b.txt"}, {"$path": "1e3"}, {"$path": "null"}, {"$path": "a b/c"}, {"$path": "."}],
+    "path": [{"$path": "a/b.txt"}, {"$path": "1e3"}, {"$path": "on"}, {"$path": "a b/c"}, {"$path": "."}],
     "decimal": [{"$decimal": "0.5"}, {"$decimal": "-7.75"}, {"$decimal": "1024"}, {"$decimal": "2.25"}],
 }
 
@@ -657,6 +657,56 @@ def _ser_accepts(t, v):
     return False
 
 
+def _plain_of(v):
+    """the plain value the dump writes for v (registered types through their serializer, Enum by name)"""
+    if isinstance(v, enum.Enum):
+        return v.name
+    if isinstance(v, dict):
+        return {str(k): _plain_of(x) for k, x in v.items()}
+    if isinstance(v, (list, tuple, set, frozenset)):
+        return [_plain_of(x) for x in v]
+    if v is None or isinstance(v, (bool, int, float, str)):
+        return v
+    if hasattr(v, "__dict__") and type(v).__name__ == "Namespace":
+        return {k: _plain_of(x) for k, x in vars(v).items()}
+    return _reg_text(v)
+
+
+def _deser_accepts(t, p):
+    """would the DESERIALISING branch for type t take the plain value p (approximation used for members that come
+    before the owner: the first member that accepts the dumped value wins at re-parse)"""
+    k = t["t"]
+    if k == "str":
+        return isinstance(p, str)
+    if k in ("int", "float", "bool"):
+        return _ser_accepts(t, p)
+    if k == "literal":
+        return any(p == x for x in t["vals"])
+    if k == "opt":
+        if p is None:
+            return True
+        if isinstance(p, str):
+            try:
+                from jsonargparse._loaders_dumpers import yaml_load
+
+                if yaml_load(p) is None:
+                    return True
+            except Exception:  # noqa: BLE001
+                pass
+        return _deser_accepts(t["a"], p)
+    if k == "union":
+        return any(_deser_accepts(x, p) for x in t["a"])
+    if k == "list":
+        return isinstance(p, list) and all(_deser_accepts(t["a"], x) for x in p)
+    if k == "dict":
+        return isinstance(p, dict) and all(_deser_accepts(t["v"], x) for x in p.values())
+    if k == "tuple":
+        return isinstance(p, list) and len(p) == len(t["a"]) and all(_deser_accepts(tt, x) for tt, x in zip(t["a"], p))
+    if k in ("vtuple", "set"):
+        return isinstance(p, list) and all(_deser_accepts(t["a"], x) for x in p)
+    return False
+
+
 def _flatten_union(t):
     out = []
     for m in t["a"]:
@@ -679,15 +729,20 @@ def _union_family(t, v, nested=False):
     if k == "opt":
         if v is None:
             return False
+        if _total(t["a"]) and _deser_accepts({"t": "opt", "a": {"t": "bool"}}, _plain_of(v)) and not isinstance(_plain_of(v), bool):
+            return True       # Optional[X] whose value is dumped as a text that reads as null (e.g. Path('null'))
         return _union_family(t["a"], v, True)
     if k == "union":
         members = _flatten_union(t)          # typing flattens Union[A, Union[B, C]] and drops duplicates
         owner = next((i for i, m in enumerate(members) if _owns(m, v)), len(members))
         flat = len(members) != len(t["a"])
         before = members[:owner] if not (nested or flat) else [m for i, m in enumerate(members) if i != owner]
+        plain = _plain_of(v)
         for m in before:
             if _total(m) or _ser_accepts(m, v):
                 return True
+            if owner < len(members) and _total(members[owner]) and _deser_accepts(m, plain):
+                return True   # the owner (containing an Enum/restricted/registered type) dumps a text that an earlier member takes at re-parse
             if m["t"] == "list" and isinstance(v, (bytes, bytearray, range)):
                 return True   # the sequence branch serialises any non-list iterable with list(): bytes -> [0, ...], range -> [0, 1, ...]
             if owner < len(members) and members[owner]["t"] == "registered" and _accepts_text(m, _reg_text(v)):
@@ -1204,7 +1259,7 @@ FLOATS = [0.0, -0.0, 1.5, -2.25, 1e22, 1e-7, 1e16, 123456789.125, 5e-324, 1.7976
 INTS = [0, 1, -1, 7, 255, 10 ** 6, -2 ** 31, 2 ** 63, 10 ** 22, -10 ** 30, 8, 9, 10, 60, 3600]
 
 
-def gen_value(t, rng, sg, prof, depth=0):
+def gen_value(t, rng, sg, prof, depth=0, in_union=False):
     k = t["t"]
     if k == "str":
         return sg.sample()
@@ -1226,7 +1281,9 @@ def gen_value(t, rng, sg, prof, depth=0):
     if k == "restricted":
         return rng.choice(RESTRICTED_VALUES[t["name"]])
     if k == "registered":
-        if rng.random() < prof.get("p_object", 0.35):
+        # as a Python object (not text); inside a Union only in the wide profile: a member that takes the serialised
+        # text first (str, Dict[str,str], …) is the Union serialisation family
+        if rng.random() < prof.get("p_object", 0.35) and (prof.get("union_family", False) or not in_union):
             return copy.deepcopy(rng.choice(REGISTERED_OBJECTS[t["name"]]))
         vals = REGISTERED_VALUES[t["name"]]
         if prof.get("decimal_inexact", False) and t["name"] in REGISTERED_VALUES_WIDE and rng.random() < 0.4:
@@ -1235,25 +1292,25 @@ def gen_value(t, rng, sg, prof, depth=0):
     if k == "literal":
         return rng.choice(t["vals"])
     if k == "opt":
-        return None if rng.random() < 0.25 else gen_value(t["a"], rng, sg, prof, depth + 1)
+        return None if rng.random() < 0.25 else gen_value(t["a"], rng, sg, prof, depth + 1, in_union)
     if k == "union":
-        return gen_value(rng.choice(t["a"]), rng, sg, prof, depth + 1)
+        return gen_value(rng.choice(t["a"]), rng, sg, prof, depth + 1, True)
     if k == "list":
-        return [gen_value(t["a"], rng, sg, prof, depth + 1) for _ in range(rng.choice([0, 1, 1, 2, 3]))]
+        return [gen_value(t["a"], rng, sg, prof, depth + 1, in_union) for _ in range(rng.choice([0, 1, 1, 2, 3]))]
     if k == "dict":
         out = {}
         for _ in range(rng.choice([0, 1, 2, 2, 3])):
             key = (sg.sample() if rng.random() < 0.5 else rng.choice(["a", "b", "k1", "x-y"])) if t["k"] == "str" else str(rng.choice([0, 1, -3, 10, 255]))
             if t["k"] == "str" and (key == "" or len(key) > 40):
                 key = "k"
-            out[key] = gen_value(t["v"], rng, sg, prof, depth + 1)
+            out[key] = gen_value(t["v"], rng, sg, prof, depth + 1, in_union)
         return out
     if k == "tuple":
-        return [gen_value(x, rng, sg, prof, depth + 1) for x in t["a"]]
+        return [gen_value(x, rng, sg, prof, depth + 1, in_union) for x in t["a"]]
     if k == "vtuple":
-        return [gen_value(t["a"], rng, sg, prof, depth + 1) for _ in range(rng.choice([0, 1, 2, 3]))]
+        return [gen_value(t["a"], rng, sg, prof, depth + 1, in_union) for _ in range(rng.choice([0, 1, 2, 3]))]
     if k == "set":
-        vals = [gen_value(t["a"], rng, sg, prof, depth + 1) for _ in range(rng.choice([0, 1, 2, 3]))]
+        vals = [gen_value(t["a"], rng, sg, prof, depth + 1, in_union) for _ in range(rng.choice([0, 1, 2, 3]))]
         out = []
         for v in vals:
             if v not in out:
@@ -1267,7 +1324,7 @@ def gen_value(t, rng, sg, prof, depth=0):
             if t.get("nested") and f["type"]["t"] == "opt" and rng.random() < 0.45:
                 out[f["name"]] = None                    # explicit null over a non-None default
             else:
-                out[f["name"]] = gen_value(f["type"], rng, sg, prof, depth + 1)
+                out[f["name"]] = gen_value(f["type"], rng, sg, prof, depth + 1, in_union)
         return out
     raise ValueError(k)
 
